@@ -6,6 +6,7 @@ import (
 	"context"
 	"errors"
 	"fmt"
+	"runtime"
 	"strings"
 	"sync"
 	"sync/atomic"
@@ -21,6 +22,7 @@ import (
 // recorder, recording Sender, failure injection.
 type env struct {
 	mu      sync.Mutex
+	slowNow int32 // the clock function yields that often before it returns (concurrent workloads)
 	clock   int64 // seconds
 	step    int
 	compose []composeCall
@@ -54,7 +56,18 @@ type sendCall struct {
 	Gateable bool
 }
 
-func (e *env) now() time.Time { return time.Unix(1_700_000_000+atomic.LoadInt64(&e.clock), 0) }
+// now is the filter's clock. It is application code and may be slow: in the concurrent workloads (slowNow) it reads
+// the clock, yields a few times and returns what it read, so that whatever the filter does around the call is
+// interleaved with other callers.
+func (e *env) now() time.Time {
+	t := time.Unix(1_700_000_000+atomic.LoadInt64(&e.clock), 0)
+	if n := atomic.LoadInt32(&e.slowNow); n > 0 {
+		for i := int32(0); i < n; i++ {
+			runtime.Gosched()
+		}
+	}
+	return t
+}
 
 // gp is the Gateable payload of the harness.
 type gp struct {
